@@ -106,8 +106,23 @@ def _transfer(st, state, repo, nonnull, module=None):
     s = dict(state)
 
     def drop(name):
-        for k in [k for k in s if k == name or k.startswith(name + '.')]:
+        for k in [k for k in s if k == name or k.startswith(name + '.') or
+                  (k.endswith('.~alias') and s[k] == name)]:
             del s[k]
+
+    def group(name):
+        """the names known to refer to the same object as `name`"""
+        g = {name}
+        grew = True
+        while grew:
+            grew = False
+            for k, v in s.items():
+                if k.endswith('.~alias'):
+                    a = k[:-7]
+                    if (a in g) != (v in g):
+                        g.update((a, v))
+                        grew = True
+        return g
     def call_effects(root):
         for c in ast.walk(root):
             if isinstance(c, ast.Call):
@@ -131,16 +146,26 @@ def _transfer(st, state, repo, nonnull, module=None):
         t, v = st.targets[0], st.value
         call_effects(v)
         if isinstance(t, ast.Attribute) and isinstance(t.value, ast.Name):
-            key = norm(t)
-            if isinstance(v, ast.Constant) and v.value is None:
-                s[key] = True
-            elif _nonnull_expr(v, nonnull):
-                s[key] = False
-            else:
-                s.pop(key, None)
+            for nm in group(t.value.id):
+                key = '%s.%s' % (nm, t.attr)
+                if isinstance(v, ast.Constant) and v.value is None:
+                    s[key] = True
+                elif _nonnull_expr(v, nonnull):
+                    s[key] = False
+                else:
+                    s.pop(key, None)
             return s
         if isinstance(t, ast.Name):
             drop(t.id)
+            if isinstance(v, ast.Name) and v.id != t.id:
+                # an alias: what is known of the object holds under both
+                # names, and a later attribute store through either name
+                # updates both
+                for k in [k for k in s if k.startswith(v.id + '.') and
+                          not k.endswith('.~alias')]:
+                    s[t.id + k[len(v.id):]] = s[k]
+                s[t.id + '.~alias'] = v.id
+                return s
             if isinstance(v, ast.Call) and repo is not None:
                 cn = (dotted(v.func) or '').split('.')[-1]
                 cls = repo.find_class(cn) if cn[:1].isupper() else None
@@ -239,7 +264,8 @@ def atoms_before(func, node, repo=None, nonnull=()):
         return []
     # innermost statement = the one with the fewest nodes
     st = min(sts, key=lambda s: sum(1 for _ in ast.walk(s)))
-    return [(k, 'none', v) for k, v in IN.get(st, {}).items()]
+    return [(k, 'none', v) for k, v in IN.get(st, {}).items()
+            if not k.endswith('.~alias')]
 
 
 def verified_nonnull(repo):
